@@ -546,12 +546,14 @@ where
 
     // 2. Iterate through each shard, notify the corresponding policy for each
     //    key being removed, and then clear the shard's map.
+    let mut cleared_cost: u64 = 0;
     for (i, guard) in shard_guards.iter_mut().enumerate() {
       let policy = &self.shared.cache_policy[i];
       for key in guard.keys() {
         // This is the crucial step you identified.
         policy.on_remove(key);
       }
+      cleared_cost += guard.values().map(|entry| entry.cost()).sum::<u64>();
       guard.clear();
     }
 
@@ -561,12 +563,14 @@ where
       policy.clear();
     }
 
-    // 4. Reset metrics and cost gate.
+    // 4. Give back the cost of exactly the entries removed here. Storing 0 raced
+    //    with inserts/removes that had already touched a map but not yet applied
+    //    their own cost delta, leaving `current_cost` off by that delta for good.
     self
       .shared
       .metrics
       .current_cost
-      .store(0, std::sync::atomic::Ordering::Relaxed);
+      .fetch_sub(cleared_cost, std::sync::atomic::Ordering::Relaxed);
   }
 
   /// Returns a concurrent-safe iterator over the key-value pairs in the cache.
